@@ -1,0 +1,68 @@
+//go:build verif
+
+package rosed
+
+// This file is compiled only with `-tags verif`. It re-exports internal entry
+// points and read-only accessors for the external verification harness; it
+// changes no existing code.
+
+import (
+	"github.com/dekarrin/rosed/internal/gem"
+	"github.com/dekarrin/rosed/internal/manip"
+	"github.com/dekarrin/rosed/internal/tb"
+	"github.com/dekarrin/rosed/internal/util"
+)
+
+type VerifGemString = gem.String
+
+func VerifClassBits(r rune) uint32                         { return gem.VerifClassBits(r) }
+func VerifShouldBreakAfter(chars []rune, i int) bool       { return gem.VerifShouldBreakAfter(chars, i) }
+func VerifSplit(r []rune) []int                            { return gem.Split(r) }
+func VerifFromRunes(r []rune) gem.String                   { return gem.VerifFromRunes(r) }
+func VerifGemNew(s string) gem.String                      { return gem.New(s) }
+func VerifGemZero() gem.String                             { return gem.Zero }
+func VerifGemRepeat(s gem.String, n int) gem.String        { return gem.Repeat(s, n) }
+func VerifRawRunes(s gem.String) []rune                    { return gem.VerifRawRunes(s) }
+func VerifCache(s gem.String) (uintptr, bool, bool, []int) { return gem.VerifCache(s) }
+
+func VerifRangeToIndexes(size, start, end int) (int, int) {
+	return util.RangeToIndexes(size, start, end)
+}
+
+func VerifCollapseSpace(text, sep string) string {
+	return manip.CollapseSpace(gem.New(text), gem.New(sep)).String()
+}
+
+func VerifWrap(text string, width int, sep string) []string {
+	return gem.Strings(manip.Wrap(gem.New(text), width, gem.New(sep)).Lines)
+}
+
+func VerifJustifyLine(text string, width int) string {
+	return manip.JustifyLine(gem.New(text), width).String()
+}
+
+func VerifAlignLine(kind int, text string, width int) string {
+	switch kind {
+	case 0:
+		return manip.AlignLineLeft(gem.New(text), width).String()
+	case 1:
+		return manip.AlignLineRight(gem.New(text), width).String()
+	default:
+		return manip.AlignLineCenter(gem.New(text), width).String()
+	}
+}
+
+func VerifCombineColumns(left, right []string, gap int) []string {
+	l := tb.Block{Lines: gem.Slice(left)}
+	r := tb.Block{Lines: gem.Slice(right)}
+	return gem.Strings(manip.CombineColumnBlocks(l, r, gap).Lines)
+}
+
+// VerifRef reports the sub-editor reference of ed: whether it has one, the
+// byte offsets, and the parent Editor value it points at.
+func VerifRef(ed Editor) (has bool, start, end int, parent Editor) {
+	if ed.ref == nil {
+		return false, 0, 0, Editor{}
+	}
+	return true, ed.ref.start, ed.ref.end, *ed.ref.parent
+}
